@@ -80,6 +80,38 @@ fn replay_known(out: &mut Out) {
         ),
     ];
     let (store, _) = build_store(&fixed_graph());
+    // self-test of the direct relationship-isomorphism predicate on the recorded deviation
+    // (comma-separated paths): MATCH (a)-[r]->(b), (c)-[s]->(d) RETURN r, s binds r = s in 6 rows
+    {
+        let np = |v: u32| NPat { var: Some(v), labels: Vec::new(), props: Vec::new() };
+        let rp = |v: u32| RPat { var: Some(v), types: Vec::new(), dir: 0, props: Vec::new(), len: None };
+        let q = Query {
+            all: false,
+            parts: vec![SQuery {
+                clauses: vec![Clause::Match {
+                    opt: false,
+                    pats: vec![
+                        Path { start: np(1), segs: vec![(rp(2), np(3))] },
+                        Path { start: np(4), segs: vec![(rp(5), np(6))] },
+                    ],
+                    wher: None,
+                }],
+                ret: Proj {
+                    distinct: false,
+                    items: vec![(Item::Expr(Expr::Var(2)), 100), (Item::Expr(Expr::Var(5)), 101)],
+                    order: Vec::new(),
+                    skip: None,
+                    limit: None,
+                },
+            }],
+        };
+        let obs = run_engine(&store, &render_query(&q), &[]);
+        let fired = matches!(rel_iso_predicate(&q, &obs), Some((_, Some("multi_path_rel_iso"))));
+        out.notes.push(format!(
+            "rel_iso_predicate self-test on the multi_path_rel_iso witness: {}",
+            if fired { "fires (relationship bound twice detected)" } else { "does not fire (the engine now enforces isomorphism across paths, or the predicate is broken)" }
+        ));
+    }
     for (class, q, expected) in witnesses {
         let obs = run_engine(&store, q, &[]);
         let same = match &obs {
@@ -209,6 +241,8 @@ fn main() {
         // the property's own predicates, evaluated directly on the implementation
         if let Obs::Panic(p) = &obs {
             out.fail(i, &human, &format!("the engine panicked: {}", p), None);
+        } else if let Some((d, class)) = rel_iso_predicate(&q, &obs) {
+            out.fail(i, &human, &d, class);
         } else if let Some(d) = direct_predicates(g, &q, &obs) {
             // a variable-length pattern answers reachability, not trails (known finding):
             // its end node is bound without the pattern's checks
